@@ -29,6 +29,7 @@ macro_rules! dispatch {
             "C11" => $f(props::c11::C11, $($arg),*),
             "C12" => $f(props::c12::C12, $($arg),*),
             "C13" => $f(props::c13::C13, $($arg),*),
+            "C14" => $f(props::c14::C14, $($arg),*),
             "C15" => $f(props::c15::C15, $($arg),*),
             "C16" => $f(props::c16::C16, $($arg),*),
             "C17" => $f(props::c17::C17, $($arg),*),
